@@ -39,7 +39,7 @@ MUTANTS = [
     ("P04b", "C04", OPT, "            if final_delta_e <= delta_e_threshold:\n                return final_rgb", "            if final_delta_e <= delta_e_threshold * 1.5:\n                return final_rgb", "descent result accepted up to 1.5x tolerance"),
     ("P05a", "C05", CON, "0.7152 * g_linear", "0.7154 * g_linear", "green weight 0.7154"),
     ("P05b", "C05", COL, '        elif level == "AA" or level == "AA Large":\n            return "Readable"', '        elif level == "AA Large":\n            return "Readable"', "AA not mapped to Readable"),
-    ("P06a", "C06", CNV, '    return f"hsl({h}, {s*100}%, {l*100}%)"', '    return f"hsl({round(h, 1)}, {round(s*100, 1)}%, {round(l*100, 1)}%)"', "hsl output rounded to 1 decimal"),
+    ("P06a", "C06", CNV, '    return f"hsl({h}, {s*100}%, {l*100}%)"', '    return f"hsl({round(h)}, {round(s*100)}%, {round(l*100)}%)"', "hsl output rounded to whole numbers (1 decimal is an EQUIVALENT mutant: all 2^24 colours still read back exactly, checked exhaustively)"),
     ("P06b", "C06", PAR, '    if format_type == "rgb_tuple":\n        return rgb', '    if format_type == "rgb_tuple":\n        return list(rgb)', "tuple format returns a list"),
     ("P07a", "C07", NAM, None, None, "one keyword value changed (computed at run time)"),
     ("P07b", "C07", PAR, "            return max(0.0, min(255.0, v * 255.0 / 100.0))", "            return max(0.0, min(255.0, v * 256.0 / 100.0))", "percentage scaled by 256"),
